@@ -1,3 +1,3 @@
 import rg_common
 A = rg_common.pairs()
-PAIRS = [A[k] for k in ("thread_free_collect", "try_use_delayed_free", "free_block_delayed_mt")]
+PAIRS = [A[k] for k in ("thread_free_collect", "try_use_delayed_free", "free_block_delayed_mt", "queue_append")]
